@@ -436,7 +436,12 @@ async fn run_scenario(line: &[&str]) -> String {
                 for (k, a) in w.adv.iter() {
                     ports.insert(*k, a.port);
                 }
-                let pids: HashMap<usize, PeerId> = w.nodes.iter().map(|(k, n)| (*k, n.peer_id)).collect();
+                let mut pids: HashMap<usize, PeerId> = w.nodes.iter().map(|(k, n)| (*k, n.peer_id)).collect();
+                for (k, a) in w.adv.iter() {
+                    if let Some(p) = a.peer_id {
+                        pids.insert(*k, p);
+                    }
+                }
                 let fut = net_cmd(t2, w.net(i), ports, pids, w.ids.clone());
                 match bgid {
                     Some(id) => {
@@ -567,6 +572,14 @@ async fn run_scenario(line: &[&str]) -> String {
                 let sni = a.get("sni").copied().unwrap_or("net").to_string();
                 let adv = w.adv.get_mut(&i).unwrap();
                 adv.dial(j, port, &sni).await
+            }
+            // advserve <i> <hex>:<finish|reset|hold>: the answer adversary i gives to the next request stream opened towards it
+            "advserve" => {
+                let i: usize = t[1].parse().unwrap();
+                let (h, act) = t[2].split_once(':').unwrap_or((t[2], "finish"));
+                let bytes = if h == "-" { Vec::new() } else { hex::decode(h).unwrap() };
+                w.adv.get(&i).unwrap().responses.lock().unwrap().push_back((bytes, act.to_string()));
+                "ok".into()
             }
             // advop <i> <j> <op>: hostile stream-level behaviour of adversary i towards node j
             "advop" => {
